@@ -8,7 +8,10 @@
 (* ones the rank bookkeeping implies, r_svd is admissible, r_out follows   *)
 (* the kick rule, `last` never goes back, the routine stops only after a   *)
 (* final sweep or when nswp sweeps are used, and the returned ranks are    *)
-(* the model's.                                                            *)
+(* the model's.  With the ledger fields (norm2, tail2, nsv, cap, crit of   *)
+(* every step; eps of every sweep) the accuracy ledger of spec/Dmrg.tla is *)
+(* checked as well: LastChop on the final sweep, Converged whenever `last` *)
+(* was set.                                                                *)
 (***************************************************************************)
 EXTENDS Dmrg, Json, IOUtils
 
@@ -20,6 +23,10 @@ ASSUME \A t \in 1..NT : TLCSet(t, 0)
 T == Traces[tid]
 d == Len(T.M)
 
+EpsL == IF "sw" \in DOMAIN T /\ Len(T.sw) > 0 THEN T.sw[1].eps_L ELSE 0
+\* `last` was set after sweep s (0-based): the next sweep ran with last = TRUE, or the routine ended with last = TRUE right after s
+DeclaredAfter(s) == \/ \E j \in 1..Len(T.ev) : T.ev[j].sweep = s + 1 /\ T.ev[j].last
+                    \/ (T.end.sweeps = s + 1 /\ T.end.last /\ \A j \in 1..Len(T.ev) : T.ev[j].sweep = s => ~T.ev[j].last)
 Init == tid \in 1..NT /\ l = 1 /\ Ry = Traces[tid].Ry /\ wasLast = FALSE
 
 Next ==
@@ -36,6 +43,10 @@ Next ==
        /\ e.r_out = StepOut(rows, e.r_svd, T.kick, e.sweep = T.nswp - 1)
        /\ (wasLast => e.last)                                     \* `last` never goes back ...
        /\ (wasLast /\ e.k = 0 => FALSE)                           \* ... and the sweep that ran with last = TRUE is the final one
+       /\ ("tail2_L" \in DOMAIN e /\ e.last /\ e.r_svd < e.cap /\ e.r_svd < e.nsv                   \* LastChop
+             => LastChopOK(e.tail2_L, e.norm2_L, EpsL, T.dm1_L))
+       /\ ("crit_L" \in DOMAIN e /\ e.k = d - 2 /\ ~e.last /\ DeclaredAfter(e.sweep)                \* Converged
+             => \A j \in (l - (d - 2))..l : SmallCrit(T.ev[j].crit_L, EpsL))
        /\ Ry' = [r0 EXCEPT ![e.k + 2] = e.r_out]
        /\ wasLast' = (IF e.k = d - 2 THEN e.last ELSE wasLast)
     /\ l' = l + 1
